@@ -12,10 +12,10 @@ trees built programmatically without positions:
     hazard, scanning the rendered line gives back exactly the tokens (`C08_no_token_merge`);
   * the default formatter (v2, internal/pretty) satisfies that hypothesis (`C08_v2_policy_safe`),
     hence its output re-parses to the same tree (`C08_v2_output_reparses`);
-  * the legacy v1 printer (cue/format, CUE_EXPERIMENT=formatv2=0) does NOT
-    (`C08_v1_policy_safe_false`; witness `<` applied to `-1` prints `<-1`), it does outside the
-    excluded region (`C08_v1_policy_safe_partial`) and it does once the guard of internal/pretty is
-    mirrored in cue/format/node.go (`C08_v1_policy_safe_fixed`).
+  * so does the legacy v1 printer (cue/format, CUE_EXPERIMENT=formatv2=0) since fix ab8529a mirrored
+    internal/pretty's guard in cue/format/node.go (`C08_v1_policy_safe`, `C08_v1_output_reparses`);
+    the OLD policy without the guard did not (`C08_v1_OLD_policy_unsafe`; `<` applied to `-1` was
+    printed `<-1`), which is kept as a clearly named record.
 
 Whole-file layout, comments and `-s` simplifications are not modelled (harness direct predicates).
 Only statements live here; the proofs are in CueVerif/Proofs/Fmt{Parse,Scan,Policy}.lean.
@@ -104,57 +104,58 @@ theorem C08_v2_output_reparses (e : Expr) (h : e.wf = true) :
   rw [scan_render _ hw (fmtV2_safe e h), toks_fmtV2]
   exact parse_print e h
 
-/-- FULL STATEMENT for the v1 printer as it is in cue/format/node.go on the unchanged tree
-(no separation guard in the UnaryExpr arm). FALSE — see `C08_v1_policy_safe_false`. -/
-def C08_v1_policy_safe_stmt : Prop := ∀ e : Expr, e.wf = true → sepOK (fmtV1g false e) = true
-
-/-- the witness: `<` applied to `-1` (ast.UnaryExpr{Op: LSS, X: &ast.UnaryExpr{Op: SUB, X: 1}}) -/
-def v1Witness : Expr := .un .lss (.un .sub (.atom (.int ['1'])))
-
-/-- the witness is printed `<-1`, which the scanner reads as ARROW 1: not the tokens printed -/
-theorem C08_v1_witness_merges :
-    render (fmtV1g false v1Witness) = ['<', '-', '1'] ∧
-    scan (render (fmtV1g false v1Witness)) = some [.op .arrow, .atom (.int ['1'])] ∧
-    (scan (render (fmtV1g false v1Witness))).bind parseE = none := by decide
-
-theorem C08_v1_policy_safe_false : ¬ C08_v1_policy_safe_stmt := by
-  intro h
-  have := h v1Witness (by decide)
-  revert this
-  decide
-
-/-- Outside the excluded region — no unary operator directly followed by an operand whose first
-token merges with it (`<` before `-…`/`=…`, `>` before `=…`, `!` before `=…`) — the v1 policy is safe. -/
-theorem C08_v1_policy_safe_partial (e : Expr) (h : e.wf = true) (hn : NoUnaryMerge e = true) :
-    sepOK (fmtV1g false e) = true :=
-  fmtV1g_partial e h hn
-
-/-- With the guard of internal/pretty mirrored in the UnaryExpr arm (`fmtV1g true`, the one-line
-switch `v1GuardEnabled`) the v1 policy is safe for every tree. -/
-theorem C08_v1_policy_safe_fixed (e : Expr) (h : e.wf = true) : sepOK (fmtV1g true e) = true :=
+/-- The legacy v1 printer (cue/format, CUE_EXPERIMENT=formatv2=0) as it is in the tree — with the
+guard `unaryOpMergesWithOperand` in the UnaryExpr arm (fix ab8529a; `fmtV1 = fmtV1g v1GuardEnabled`,
+`v1GuardEnabled = true`) — separates every hazardous pair, for every tree. -/
+theorem C08_v1_policy_safe (e : Expr) (h : e.wf = true) : sepOK (fmtV1 e) = true :=
   fmtV1g_guard_safe e h
 
-theorem C08_v1_output_reparses_partial (e : Expr) (h : e.wf = true) (hn : NoUnaryMerge e = true) :
-    (scan (render (fmtV1g false e))).bind parseE = some (norm e) := by
-  have hw : ∀ x ∈ fmtV1g false e, x.2.wf = true := by
-    intro x hx
-    have : x.2 ∈ toks (fmtV1g false e) := List.mem_map_of_mem hx
-    rw [toks_fmtV1g] at this
-    exact printP_wf lowestPrec e h _ this
-  rw [scan_render _ hw (fmtV1g_partial e h hn), toks_fmtV1g]
-  exact parse_print e h
-
-theorem C08_v1_output_reparses_fixed (e : Expr) (h : e.wf = true) :
-    (scan (render (fmtV1g true e))).bind parseE = some (norm e) := by
+/-- Hence the characters the v1 printer writes for any expression tree scan and parse back to the
+tree's normal form. -/
+theorem C08_v1_output_reparses (e : Expr) (h : e.wf = true) :
+    (scan (render (fmtV1 e))).bind parseE = some (norm e) := by
   have hw : ∀ x ∈ fmtV1g true e, x.2.wf = true := by
     intro x hx
     have : x.2 ∈ toks (fmtV1g true e) := List.mem_map_of_mem hx
     rw [toks_fmtV1g] at this
     exact printP_wf lowestPrec e h _ this
+  show (scan (render (fmtV1g true e))).bind parseE = some (norm e)
   rw [scan_render _ hw (fmtV1g_guard_safe e h), toks_fmtV1g]
   exact parse_print e h
 
--- non-vacuity of the partial theorem: `a*b + c*-d < -x` has unary operators and satisfies NoUnaryMerge
+/-! #### the OLD v1 policy (before fix ab8529a): kept as a record of why the guard is needed.
+`fmtV1g false` is the printer WITHOUT the guard; nothing below is about the current tree. -/
+
+/-- the statement the OLD policy would have had to satisfy — FALSE -/
+def C08_v1_OLD_policy_safe_stmt : Prop := ∀ e : Expr, e.wf = true → sepOK (fmtV1g false e) = true
+
+/-- the witness: `<` applied to `-1` (ast.UnaryExpr{Op: LSS, X: &ast.UnaryExpr{Op: SUB, X: 1}}) -/
+def v1Witness : Expr := .un .lss (.un .sub (.atom (.int ['1'])))
+
+/-- the OLD policy printed the witness `<-1`, which the scanner reads as ARROW 1 -/
+theorem C08_v1_OLD_policy_witness_merges :
+    render (fmtV1g false v1Witness) = ['<', '-', '1'] ∧
+    scan (render (fmtV1g false v1Witness)) = some [.op .arrow, .atom (.int ['1'])] ∧
+    (scan (render (fmtV1g false v1Witness))).bind parseE = none := by decide
+
+theorem C08_v1_OLD_policy_unsafe : ¬ C08_v1_OLD_policy_safe_stmt := by
+  intro h
+  have := h v1Witness (by decide)
+  revert this
+  decide
+
+/-- ... and the CURRENT policy prints the same witness `< -1`, which re-parses -/
+theorem C08_v1_witness_now_separated :
+    render (fmtV1 v1Witness) = ['<', ' ', '-', '1'] ∧
+    (scan (render (fmtV1 v1Witness))).bind parseE = some v1Witness := by decide
+
+/-- the OLD policy was safe exactly outside the region the guard now covers: no unary operator
+directly followed by an operand whose first token merges with it -/
+theorem C08_v1_OLD_policy_safe_partial (e : Expr) (h : e.wf = true) (hn : NoUnaryMerge e = true) :
+    sepOK (fmtV1g false e) = true :=
+  fmtV1g_partial e h hn
+
+-- non-vacuity: `a*b + c*-d < -x` has unary operators and satisfies NoUnaryMerge; the witness does not
 example :
     let a := Expr.atom (.ident ['a'])
     let e := Expr.bin .lss (.bin .add (.bin .mul a a) (.bin .mul a (.un .sub a))) (.un .sub a)
